@@ -90,7 +90,7 @@ ROWS, COLS, LEN = (lambda a: Dim("rows", a)), (lambda a: Dim("cols", a)), (lambd
 MATRIX_CONTRACT = {
     "add_mut": "same", "sub_mut": "same", "mul_mut": "same", "div_mut": "same", "copy_from": "same",
     "matmul": [(COLS(1), ROWS(2))], "v_stack": [(COLS(1), COLS(2))], "h_stack": [(ROWS(1), ROWS(2))],
-    "dot": [(Prod(ROWS(1), COLS(1)), Prod(ROWS(2), COLS(2)))],
+    "dot": [(Prod(ROWS(1), COLS(1)), Prod(ROWS(2), COLS(2)))],   # or total lengths, see explicit_guard
     "reshape": [(Prod(ROWS(1), COLS(1)), Prod(Arg(2), Arg(3)))],
 }
 VECTOR_CONTRACT = {m: [(LEN(1), LEN(2))] for m in ("dot", "add_mut", "sub_mut", "mul_mut", "div_mut", "copy_from")}
@@ -101,6 +101,9 @@ def explicit_guard(prog, body, pairs, want):
     cx = BodyCtx.of(body)
     if pairs == "same":
         alts_ = [[(ShapeOf(1), ShapeOf(2))], [(ROWS(1), ROWS(2)), (COLS(1), COLS(2))]]
+    elif len(pairs) == 1 and isinstance(pairs[0][0], Prod) and isinstance(pairs[0][1], Prod) and isinstance(pairs[0][1].a, Dim):
+        # total sizes: rows*cols on both sides, or the arrays' total lengths
+        alts_ = [pairs, [(LEN(1), LEN(2))], [(ShapeOf(1), ShapeOf(2))]]
     else:
         alts_ = [pairs, [(ShapeOf(1), ShapeOf(2))]] if all(isinstance(p[0], Dim) and isinstance(p[1], Dim) for p in pairs) and len(pairs) == 1 \
             and pairs[0][0].kind == "len" else [pairs]
@@ -309,3 +312,24 @@ def norm_sign_rule(prog, body):
     if n_sites < 3:
         problems.append(f"only {n_sites} accumulation sites recognised (expected the +inf, -inf and p-norm branches)")
     return problems
+
+
+def dot_orientation(prog, body):
+    """BaseMatrix::dot is the inner product of two vectors in either orientation.  'elementwise' (sums a_i*b_i over all
+    elements: orientation-free) or 'product-pick' (a matrix product of which one entry is picked: only right for row vectors)"""
+    res = Resolver(body)
+    ret = res.local(0)
+    picks = [s for s in subterms(ret) if s[0] == "idx" and s[1][0] == "call" and re.search(r"ArrayBase<S, ndarray::Dim<\[usize; 2\]>>>::dot$|^std::ops::Mul::mul$", s[1][1])]
+    if picks:
+        return "product-pick", render(picks[0])[:100]
+    for bb, t in body.calls():
+        f = t.get("f")
+        if f and re.search(r"blas::<impl nalgebra::Matrix<T, R, C, S>>::dot$", f["path"]):
+            return "elementwise", "nalgebra dot: sum of a_ij * b_ij over equal-shaped operands"
+    # loop / iterator accumulation of products of corresponding elements
+    for s in subterms(ret):
+        if s[0] == "call" and s[1] in ("mut:std::ops::AddAssign::add_assign", "std::ops::Mul::mul"):
+            return "elementwise", render(s)[:100]
+        if s[0] == "call" and s[1].endswith(("Iterator::sum", "Iterator::fold")):
+            return "elementwise", render(s)[:100]
+    return None, render(ret)[:100]
